@@ -735,7 +735,13 @@ func (e *seqEffects) walk(n ast.Node, env map[types.Object]string, callee *ast.F
 		case *ast.RangeStmt:
 			if x != e.loop {
 				if b := e.base(x.X, env, callee); b != "" {
-					e.read[b] = append(e.read[b], "ranged over")
+					if selfFilter(x) {
+						// `for k := range S { if keep(k) { continue }; delete(S, k) }`: S is narrowed to the elements that
+						// pass a test which does not look at S - an intersection, whatever the order of the trips
+						e.read[b] = append(e.read[b], "ranged over to filter itself")
+					} else {
+						e.read[b] = append(e.read[b], "ranged over")
+					}
 				}
 			}
 		case *ast.CallExpr:
@@ -860,7 +866,7 @@ func (e *seqEffects) conflicts() []string {
 		if r, ok := e.read[b]; ok {
 			// a set that only shrinks and is only asked whether it is empty: "empty at some point" holds for every
 			// order or for none (the intersection of all the trips' deletions is what counts)
-			if subsetOf(how, "delete", "maps.DeleteFunc") && subsetOf(r, "tested for emptiness") {
+			if subsetOf(how, "delete", "maps.DeleteFunc") && subsetOf(r, "tested for emptiness", "ranged over to filter itself") {
 				continue
 			}
 			bad = append(bad, fmt.Sprintf("%s lives across trips, is modified by a trip (%s) and read by a trip (%s): what a trip finds there depends on which components came before", b, strings.Join(uniq(how), ", "), strings.Join(uniq(r), ", ")))
@@ -921,4 +927,66 @@ func subsetOf(xs []string, allowed ...string) bool {
 		}
 	}
 	return true
+}
+
+// selfFilter: a range over a set whose body does nothing but delete the current key from that same set, under
+// conditions that do not mention the set (if/continue guards, lookups in other containers).
+func selfFilter(rs *ast.RangeStmt) bool {
+	key, ok := rs.Key.(*ast.Ident)
+	if !ok || rs.Value != nil && nospace(rs.Value) != "_" {
+		return false
+	}
+	set := nospace(rs.X)
+	okBody := true
+	deletes := 0
+	var stmts func(list []ast.Stmt)
+	stmts = func(list []ast.Stmt) {
+		for _, st := range list {
+			switch x := st.(type) {
+			case *ast.IfStmt:
+				if x.Init != nil {
+					// `if _, ok := other[k]; ok` - a lookup elsewhere
+					if strings.Contains(nospace2(x.Init), set) {
+						okBody = false
+					}
+				}
+				if strings.Contains(nospace(x.Cond), set) {
+					okBody = false
+				}
+				stmts(x.Body.List)
+				switch el := x.Else.(type) {
+				case *ast.BlockStmt:
+					stmts(el.List)
+				case *ast.IfStmt:
+					stmts([]ast.Stmt{el})
+				}
+			case *ast.BranchStmt:
+				if x.Tok != token.CONTINUE {
+					okBody = false
+				}
+			case *ast.ExprStmt:
+				ce, isCall := x.X.(*ast.CallExpr)
+				if isCall && callName(ce) == "delete" && len(ce.Args) == 2 && nospace(ce.Args[0]) == set && nospace(ce.Args[1]) == key.Name {
+					deletes++
+				} else {
+					okBody = false
+				}
+			default:
+				okBody = false
+			}
+		}
+	}
+	stmts(rs.Body.List)
+	return okBody && deletes > 0
+}
+
+func nospace2(s ast.Stmt) string {
+	if as, ok := s.(*ast.AssignStmt); ok {
+		var parts []string
+		for _, r := range as.Rhs {
+			parts = append(parts, nospace(r))
+		}
+		return strings.Join(parts, ",")
+	}
+	return "?"
 }
